@@ -19,7 +19,10 @@
        the same for everything transitively referenced - what TypeId::compute_from_dyn hashes
        (core/src/introspection/type_id.rs, struct Compute) - and AlgoId, a transcription of the
        worklist loop of compute_from_dyn whose result must not depend on the order in which
-       references are visited.
+       references are visited.  Type expressions are the built-ins, references to definitions and
+       GENERIC CUSTOM TYPES - Rust tuples (core/src/impls/tuple.rs), whose lexical id is generic
+       over the element ids while all tuples of one arity share the schema and name of their layout
+       (struct std::TupleN).
 
    Model-checking modules: SchemaModel_MC18.tla, SchemaModel_MC20.tla. *)
 EXTENDS Integers, Sequences, FiniteSets, TLC, SequencesExt
@@ -350,8 +353,8 @@ Rnd3(a, b, c) == Mix(Mix(Mix(Mix(a % 65537, b), c), a + 3 * b + 7 * c), 12345)
    in insertion order), rord the order in which add_references hands out references, docs which
    documentation strings are attached.  References between definitions are Ext(schema, name)
    (the lexical id of a custom type is a function of exactly that pair); the lexical id of a
-   built-in type expression is a function of the expression, so a type expression stands for its
-   own lexical id in the model. *)
+   built-in type expression and of a generic custom type (tuple) is a function of the expression,
+   so a type expression stands for its own lexical id in the model. *)
 TStruct(s, n, mem, fb)  == [k |-> "struct", schema |-> s, name |-> n, mem |-> mem, fb |-> fb]
 TEnum(s, n, mem, fb)    == [k |-> "enum", schema |-> s, name |-> n, mem |-> mem, fb |-> fb]
 TNewtype(s, n, ty)      == [k |-> "newtype", schema |-> s, name |-> n, ty |-> ty]
@@ -360,6 +363,31 @@ TEv(name, id, ty)       == [name |-> name, id |-> id, ty |-> ty]
 TService(s, n, uuid, ver, fns, evs, fnfb, evfb) ==
   [k |-> "service", schema |-> s, name |-> n, uuid |-> uuid, ver |-> ver, fns |-> fns, evs |-> evs,
    fnfb |-> fnfb, evfb |-> evfb]
+
+(* Generic custom types: Rust tuples (core/src/impls/tuple.rs, impl_tuple!).  The TYPE (A, B) has the
+   lexical id custom_generic("std", "Tuple2", [lexical id of A, lexical id of B]) - in the model the
+   expression Tup(<<A, B>>) itself, like every type expression - and references A, B in this order.  Its
+   LAYOUT is the struct std::Tuple2 with the required fields field0 @ 0 = A, field1 @ 1 = B, no fallback:
+   the layouts of all tuples of one arity share schema and name, i.e. the lexical id that the layout alone
+   would give (LayoutIr::lexical_id, custom("std", "Tuple2")) does NOT identify the type; only the whole
+   layout (with the element ids in its fields) does. *)
+Tup(es) == [k |-> "tuple", es |-> es]
+TupleArities == 1 .. 12
+TupleDef(t) ==
+  TStruct("std", "Tuple" \o ToString(Len(t.es)),
+          [i \in 1 .. Len(t.es) |-> Field("field" \o ToString(i - 1), ToString(i - 1), TRUE, t.es[i])], <<>>)
+
+\* the type expressions of introspection: the grammar's (references resolved to Ext) and tuples
+RECURSIVE WFTypeI(_)
+WFTypeI(t) ==
+  CASE t.k \in Leaves -> DOMAIN t = {"k"}
+    [] t.k \in Unary  -> DOMAIN t = {"k", "a"} /\ WFTypeI(t.a)
+    [] t.k \in {"map", "result"} -> DOMAIN t = {"k", "a", "b"} /\ WFTypeI(t.a) /\ WFTypeI(t.b)
+    [] t.k = "array"  -> DOMAIN t = {"k", "a", "len"} /\ WFTypeI(t.a) /\ DOMAIN t.len = {"lit"}
+    [] t.k = "ext"    -> DOMAIN t = {"k", "schema", "name"}
+    [] t.k = "tuple"  -> /\ DOMAIN t = {"k", "es"} /\ Len(t.es) \in TupleArities
+                         /\ \A i \in 1 .. Len(t.es) : WFTypeI(t.es[i])
+    [] OTHER -> FALSE
 Universe(defs) == [defs |-> defs, rord |-> "fwd", docs |-> "none", impl |-> "slots"]
 
 SeqRange(s) == {s[i] : i \in 1 .. Len(s)}
@@ -391,8 +419,11 @@ DefLayout(d) ==
           evs |-> ById(d.evs, LAMBDA e : [name |-> e.name, ty |-> e.ty]),
           fnfb |-> d.fnfb, evfb |-> d.evfb]
 
-\* the layout of a node (a type expression); built-ins carry the lexical ids of their arguments
-Layout(P, t) == IF IsDefRef(P, t) THEN DefLayout(Lookup(P, t)) ELSE [kind |-> "builtin", ty |-> t]
+\* the layout of a node (a type expression); built-ins carry the lexical ids of their arguments, a tuple
+\* is the struct std::TupleN whose fields carry the lexical ids of the elements
+Layout(P, t) == IF IsDefRef(P, t) THEN DefLayout(Lookup(P, t))
+                ELSE IF t.k = "tuple" THEN DefLayout(TupleDef(t))
+                ELSE [kind |-> "builtin", ty |-> t]
 
 DefRefs(d) ==
   CASE d.k = "struct"  -> [i \in 1 .. Len(d.mem) |-> d.mem[i].ty]
@@ -406,7 +437,11 @@ Refs(P, t) ==
   CASE IsDefRef(P, t)              -> DefRefs(Lookup(P, t))
     [] t.k \in Unary \/ t.k = "array" -> <<t.a>>
     [] t.k \in {"map", "result"}   -> <<t.a, t.b>>
+    [] t.k = "tuple"               -> t.es
     [] OTHER                       -> <<>>
+
+\* every type a definition mentions is a well-formed introspection type expression
+WFRefs(P) == \A d \in SeqRange(P.defs) : \A t \in SeqRange(DefRefs(d)) : WFTypeI(t)
 
 Ordered(rord, s) ==
   CASE rord = "rev" -> Reverse(s)
@@ -455,6 +490,7 @@ RenameT(t, old, new) ==
     [] t.k \in Unary -> [t EXCEPT !.a = RenameT(t.a, old, new)]
     [] t.k = "array" -> [t EXCEPT !.a = RenameT(t.a, old, new)]
     [] t.k \in {"map", "result"} -> [t EXCEPT !.a = RenameT(t.a, old, new), !.b = RenameT(t.b, old, new)]
+    [] t.k = "tuple" -> [t EXCEPT !.es = [i \in 1 .. Len(t.es) |-> RenameT(t.es[i], old, new)]]
     [] OTHER -> t
 RenOpt(o, old, new) == [i \in 1 .. Len(o) |-> RenameT(o[i], old, new)]
 
@@ -487,6 +523,9 @@ EditSites(P, i) ==
   \cup CASE d.k = "struct" ->
               {E("fb.toggle", 0)} \cup (IF d.fb = <<>> THEN {} ELSE {E("fb.name", 0)})
               \cup {E(w, j) : w \in {"m.id", "m.name", "m.req", "m.ty", "m.wrap"}, j \in 1 .. Len(d.mem)}
+              \* a field of tuple type: another element type, another arity, the elements in another order
+              \cup {E(w, j) : w \in {"m.telem", "m.tarity"}, j \in {j \in 1 .. Len(d.mem) : d.mem[j].ty.k = "tuple"}}
+              \cup {E("m.tswap", j) : j \in {j \in 1 .. Len(d.mem) : d.mem[j].ty.k = "tuple" /\ Reverse(d.mem[j].ty.es) # d.mem[j].ty.es}}
          [] d.k = "enum" ->
               {E("fb.toggle", 0)} \cup (IF d.fb = <<>> THEN {} ELSE {E("fb.name", 0)})
               \cup {E(w, j) : w \in {"m.id", "m.name", "v.ty"}, j \in 1 .. Len(d.mem)}
@@ -516,6 +555,10 @@ ApplyEdit(P, e) ==
     [] w = "m.req"  -> [P EXCEPT !.defs[i].mem[j].req = ~@]
     [] w = "m.ty"   -> [P EXCEPT !.defs[i].mem[j].ty = OtherType(@)]
     [] w = "m.wrap" -> [P EXCEPT !.defs[i].mem[j].ty = Un("vec", @)]
+    [] w = "m.telem"  -> LET es == d.mem[j].ty.es IN
+                         [P EXCEPT !.defs[i].mem[j].ty.es = [n \in 1 .. Len(es) |-> IF n = Len(es) THEN OtherType(es[n]) ELSE es[n]]]
+    [] w = "m.tarity" -> [P EXCEPT !.defs[i].mem[j].ty.es = IF Len(@) <= 2 THEN Append(@, Lf("u8")) ELSE SubSeq(@, 1, Len(@) - 1)]
+    [] w = "m.tswap"  -> [P EXCEPT !.defs[i].mem[j].ty.es = Reverse(@)]
     [] w = "v.ty"   -> [P EXCEPT !.defs[i].mem[j].ty = ChangeOpt(@)]
     [] w = "v.drop" -> [P EXCEPT !.defs[i].mem[j].ty = <<>>]
     [] w = "n.ty"   -> [P EXCEPT !.defs[i].ty = OtherType(@)]
